@@ -13,8 +13,10 @@ import random
 import re
 
 from .. import core
+from . import c16_session as S2
 
 INT_MIN, INT_MAX = -2 ** 31, 2 ** 31 - 1
+HARNESS_SRC = ["c16_params.c", "c16_dint.c", "c16_mtint.c"]
 
 # ---- documentation-derived tables used by the direct oracle (zstd.h) ----
 ZERO_DEFAULT = {"windowLog", "hashLog", "chainLog", "searchLog", "minMatch", "strategy", "ldmHashLog", "ldmMinMatch",
@@ -104,27 +106,47 @@ def run_cases(env, cases):
     return res_r, res_m, None
 
 
+def tobin(tok):
+    """numbers beyond 60 bits travel in binary (the OCaml driver works on Coq's Z, its parser on native ints)"""
+    try:
+        v = int(tok)
+    except ValueError:
+        return tok
+    return ("b" + bin(v)[2:]) if v >= (1 << 60) else tok
+
+
 def model_op(opl):
     t = opl.split()
-    if t[0] == "cfxwin":      # for the model this is one more successful one-shot frame
-        return "cframe " + t[1]
-    if t[0] == "dfx":         # decode attempt followed by a session reset
-        return "dreset %s 1" % t[1]
+    if t[0] == "cpl":
+        return "cpl %s %s" % (t[1], tobin(t[2]))
+    if t[0] in ("cover", "fixture"):      # direct rules without a model
+        return "nop"
     return opl
 
 
-def canon(opl, real_line):
+def canon(opl, real_line, model_line=""):
     """what of the real line is compared with the model."""
     t = opl.split()
     r = real_line.split()
+    m = model_line.split()
     if not r:
         return real_line
     if t[0] == "cfxwin" and r[0] == "ok":
         return " ".join(r[:5])
-    if t[0] == "dfx":
+    if t[0] in ("dfx", "cover", "fixture"):
         return "ok"
     if r[0] == "err":
         return "err"
+    if r == ["ok", "none"]:
+        return "ok"
+    if t[0] == "cuse" and len(r) == 4 and len(m) == 4:
+        # the model names the dictionary / prefix the frame was compressed with; the harness tried all five candidates
+        use, mask = int(m[3]), int(r[3])
+        return " ".join(r[:3] + [m[3] if (mask >> use) & 1 else "does-not-decode-with-%d(mask=%d)" % (use, mask)])
+    if t[0] == "cavec" and len(r) == len(m):
+        return " ".join(a if b != "?" else "?" for a, b in zip(r, m))      # `?`: a cell the model leaves open (frames using a CDict)
+    if t[0] == "cxvec":
+        return " ".join(tobin(x) for x in r)
     return real_line
 
 
@@ -136,8 +158,9 @@ class Oracle:
     def __init__(self, env):
         self.e = env
         self.nc = len(env.cids)
+        self.s2 = S2.SessionOracle(env)
 
-    def cvec_ok(self, vec, skip_level):
+    def cvec_ok(self, vec, skip_level, raw_flags=False):
         """every stored value within the advertised bounds or the documented 0."""
         for i, v in zip(self.e.cids, vec[:self.nc]):
             n = self.e.cname[i]
@@ -146,6 +169,8 @@ class Oracle:
                 return "get(%s) fails" % n
             if n == "compressionLevel" and skip_level:
                 continue
+            if n in ("contentSizeFlag", "checksumFlag") and raw_flags:
+                continue    # ZSTD_CCtxParams_init_advanced stores the struct's flags as given: outside the property (like init(level))
             v = int(v)
             if not (b[0] <= v <= b[1] or (v == 0 and n in ZERO_DEFAULT)):
                 return "%s holds %d outside its bounds [%d,%d]" % (n, v, b[0], b[1])
@@ -156,6 +181,9 @@ class Oracle:
         e, bad = self.e, []
         last = {}
         pinit = any(o.startswith("pinit") for o in ops)
+        raw_flags = any(o.startswith("pinitadv") and any(x not in ("0", "1") for x in o.split()[8:11]) for o in ops)
+        new_dict_calls = any(o.split()[0] in ("dload", "drefprefix", "ddec", "ddec1", "ddecm", "ddecu") or
+                             (o.split()[0] == "drefddict" and o.split()[2] == "2") for o in ops)
         pend = []   # (index, key) probes waiting for the next vector of their object
         fresh = set()
         for i, (o, r) in enumerate(zip(ops, real)):
@@ -177,7 +205,7 @@ class Oracle:
             if k0 in ("cvec", "pvec", "dvec"):
                 vec = rr[1:]
                 if k0 != "dvec":
-                    m = self.cvec_ok(vec, pinit)
+                    m = self.cvec_ok(vec, pinit, raw_flags)
                     if m:
                         bad.append("op %d (%s): %s" % (i, o, m))
                 else:
@@ -199,7 +227,7 @@ class Oracle:
                     if vec != want:
                         bad.append("op %d (%s): a freshly created object does not hold the documented defaults" % (i, o))
                 for (j, kk) in [p for p in pend if p[1] == key]:
-                    m = self.judge(ops[j], real[j], last.get(key), vec, last)
+                    m = self.judge(ops[j], real[j], last.get(key), vec, last, new_dict_calls)
                     if m:
                         bad.append("op %d (%s -> %s): %s" % (j, ops[j], real[j], m))
                 pend = [p for p in pend if p[1] != key]
@@ -217,7 +245,7 @@ class Oracle:
             elif key is not None:
                 fresh.discard(key)
                 pend.append((i, key))
-        return bad
+        return bad + self.s2.check(ops, real)
 
     def dvec_ok(self, vec):
         e = self.e
@@ -230,7 +258,7 @@ class Oracle:
                 return "%s holds %d outside its bounds [%d,%d]" % (n, v, b[0], b[1])
         return None
 
-    def judge(self, o, r, pre, post, last):
+    def judge(self, o, r, pre, post, last, new_dict_calls=False):
         """one call between two vectors of its object."""
         e = self.e
         t, rr = o.split(), r.split()
@@ -306,9 +334,10 @@ class Oracle:
                     return "parameters changed by a compression call (not sticky)"
                 if k0 in ("cframe", "cend", "cfxwin") and cls == "ok":
                     ck, fm = ppar[e.cids.index(e.cid["checksumFlag"])], ppar[e.cids.index(e.cid["format"])]
+                    ck = "0" if ck == "0" else "1"       # a flag: any non-zero value announces (and appends) a checksum
                     if rr[1] != ck or rr[4] != fm:
                         return "frame header (checksum %s, magicless %s) does not reflect the parameters (%s, %s)" % (rr[1], rr[4], ck, fm)
-                    if k0 != "cend" and rr[2] != ppar[e.cids.index(e.cid["contentSizeFlag"])]:
+                    if k0 != "cend" and rr[2] != ("0" if ppar[e.cids.index(e.cid["contentSizeFlag"])] == "0" else "1"):
                         return "content size flag not in force"
                     if k0 == "cfxwin" and pdict == "0":
                         w = int(ppar[e.cids.index(e.cid["windowLog"])])
@@ -420,7 +449,7 @@ class Oracle:
                     return "unknown reset directive changed something"
                 return None
             if k0 in ("dbegin", "dend", "dbad", "dbadcall", "dframe", "dfx"):
-                if qpar != ppar or qmw != pmw or qdict != pdict:
+                if qpar != ppar or qmw != pmw or (qdict != pdict and not new_dict_calls):   # round 2: a prefix is consumed by a frame
                     return "parameters changed by a decompression call (not sticky)"
                 if k0 == "dfx":
                     fmt = int(ppar[e.dids.index(e.did["format"])])
@@ -437,7 +466,7 @@ class Oracle:
                     elif k == 3:
                         exp = fmt == 0 and ign == 1
                     elif k == 4:
-                        exp = fmt == 0 and pdict == "1"
+                        exp = None if new_dict_calls else (fmt == 0 and pdict == "1")   # which dictionary: judged by the round-2 rules
                     if exp is not None and exp != (cls == "ok"):
                         return "decoder-side effect: frame %d %s although format=%d maxWindow=%d ignoreChecksum=%d dict=%s" % (
                             k, "decoded" if cls == "ok" else "refused", fmt, mw, ign, pdict)
@@ -725,7 +754,7 @@ def first_mismatch(ops, real, model):
     for i, (o, r, m) in enumerate(zip(ops, real, model)):
         if r == "skip":
             continue
-        if canon(o, r) != m:
+        if canon(o, r, m) != m:
             return i
     return None
 
@@ -755,7 +784,7 @@ def evaluate(env, oracle, cases):
         executed += nex
         if sig is not None:
             # non-trivial: a grid cell whose probe ran on the real library / a history with >= 80% of its calls executed
-            probe_ran = (real[-2] != "skip" and real[-3] != "skip") if sig[0] != "H" else nex * 5 >= len(ops) * 4
+            probe_ran = (real[-2] != "skip" and real[-3] != "skip") if sig[0] in ("C", "P", "D") else nex * 5 >= len(ops) * 4
             NONTRIVIAL.append((sig, probe_ran))
         if i is not None or bad:
             problems.append(dict(kind="tie" if i is not None else "oracle", ops=ops, index=i,
@@ -775,7 +804,7 @@ def shrink(env, oracle, prob):
 
     i = 1
     while i < len(ops) - 1 and budget > 0:
-        if ops[i].split()[0] in ("cvec", "pvec", "dvec"):
+        if ops[i].split()[0] in S2.OBSERVERS:
             i += 1
             continue
         cand = ops[:i] + ops[i + 1:]
@@ -785,7 +814,9 @@ def shrink(env, oracle, prob):
         else:
             i += 1
     p, _ = evaluate(env, oracle, [(ops, None)])
-    return p[0] if p else prob
+    res = p[0] if p else prob
+    res["sig"] = prob.get("sig")
+    return res
 
 
 def report(ctx, prob, limit_state):
@@ -802,7 +833,12 @@ def report(ctx, prob, limit_state):
         what.append("model/code disagreement at op %d `%s`: code `%s`, model `%s`" % (
             prob["index"], prob["ops"][prob["index"]], prob["real"], prob["model"]))
     replay = dict(kind="c16-case", ops=prob["ops"], index=prob["index"], real=prob["real"], model=prob["model"], oracle=prob["oracle"])
-    ctx.violation(replay, what=" | ".join(what)[:900], no_input=not prob["oracle"])
+    sig = prob.get("sig")
+    key = None
+    if isinstance(sig, tuple) and sig and sig[0] == "SC":      # scenario of a repaired finding: it is back
+        key = S2.KEYS[sig[1]][0]
+        what.insert(0, "in the scenario of repaired finding %s (%s) - the finding is back if the call below is the scenario's critical one" % (sig[1], S2.KEYS[sig[1]][1]))
+    ctx.violation(replay, what=" | ".join(what)[:900], no_input=not (prob["oracle"] or key), key=key)
 
 
 def direct_pledge_check(ctx, env):
@@ -866,7 +902,7 @@ def with_my_gen(fn, what):
 def run(ctx):
     rng = random.Random(ctx.seed * 7919 + 16)
     variant = "o1"
-    cx = core.build_harness("c16_params", ["c16_params.c", "c16_dint.c"], variant=variant, extra_flags=["-w"])
+    cx = core.build_harness("c16_params", HARNESS_SRC, variant=variant, extra_flags=["-w"])
     ml = with_my_gen(lambda: core.build_extracted("c16model", "Extract/Extract_C16.v", "c16_driver.ml"), "extraction")
     env = Env(ml, cx)
     oracle = Oracle(env)
@@ -912,10 +948,16 @@ def run(ctx):
     found = []          # concrete failing inputs (oracle failures)
     ties = []           # disagreements where the property statement still holds on the input
     # ---- grid
+    import sys
+    me = sys.modules[__name__]
     grid = gen_grid(rng, env, ctx.tier)
     nhist = 250 if ctx.quick else 20000
     hist = [gen_history(rng, env, 50) for _ in range(nhist)]
-    allc = grid + hist
+    # round 2: composite setters, pledge, applied parameters, dictionaries, decoder-side dictionaries
+    grid2 = S2.gen_grid2(rng, env, ctx.tier, me)
+    hist2 = [S2.gen_history2(rng, env, 40, me) for _ in range(400 if ctx.quick else 20000)]
+    scen = [(ops, ("SC", tag, n)) for n, (tag, ops) in enumerate(S2.scenarios(env))]
+    allc = scen + grid + hist + grid2 + hist2
     nchunks = max(1, min(core.NCPU, len(allc) // 200))
     chunks = [allc[i::nchunks] for i in range(nchunks)]
     executed = 0
@@ -929,20 +971,27 @@ def run(ctx):
     ctx.notes["trivial_cases"] = sum(1 for _, ok in NONTRIVIAL if not ok)
     ctx.cov["evaluations"] = executed          # API calls executed on the real library and compared with the model
     ctx.cov["traces_validated_against_impl"] = len(allc)
-    ctx.notes["cases"] = dict(grid=len(grid), histories=len(hist), calls_executed=executed)
-    for ops, sig in (grid[:3] + grid[len(grid) // 2:len(grid) // 2 + 2] + hist[:1]):
+    ctx.notes["cases"] = dict(grid=len(grid), histories=len(hist), grid_round2=len(grid2), histories_round2=len(hist2),
+                              scenarios_of_repaired_findings=len(scen), calls_executed=executed)
+    for ops, sig in (grid[:2] + grid[len(grid) // 2:len(grid) // 2 + 1] + hist[:1] + grid2[:1] + grid2[len(grid2) // 2:len(grid2) // 2 + 1] + hist2[:1] + scen[:1]):
         ctx.sample(dict(sig=str(sig), ops=ops[-8:] if len(ops) > 8 else ops))
 
     # ---- thorough: sanitizer build of the harness on a subset
     if not ctx.quick:
         try:
-            cxa = core.build_harness("c16_params", ["c16_params.c", "c16_dint.c"], variant="asan", extra_flags=["-w"])
+            cxa = core.build_harness("c16_params", HARNESS_SRC, variant="asan", extra_flags=["-w"])
             enva = Env(ml, cxa)
             sub = allc[::3]
             probs, n = evaluate(enva, oracle, sub)
             ctx.notes["asan_cases"] = len(sub)
             for p in probs:
                 p["sig"] = ("asan", p.get("sig"))
+                if p["kind"] == "crash" and "zstd_decompress_block.c" in str(p["real"]) and "pointer index expression" in str(p["real"]):
+                    # UB in the block decoder on a frame decoded with the wrong dictionary: outside the parameter contract, reported under its own key
+                    ctx.violation(dict(kind="c16-case", ops=p["ops"], index=None, real=p["real"], model=None, oracle=p["oracle"]),
+                                  what="UBSan (supporting test): ZSTD_prefetchMatch computes match+CACHELINE_SIZE on a wrapped pointer when a frame is decoded "
+                                       "with the wrong dictionary: " + str(p["real"])[-300:], key="C16-asan-prefetch-pointer-overflow")
+                    continue
                 (found if p["oracle"] else ties).append(p)
         except Exception as e:
             core.log("asan variant failed:", repr(e))
@@ -957,10 +1006,19 @@ def run(ctx):
         "regenerated tables + unknown ids x values {lo-1,lo,lo+1,0,default,hi-1,hi,hi+1,INT_MIN,INT_MAX,1,-1,2} + seeded random values, "
         "plus reset/dictionary/apply/frame probes and 50-call random histories over all objects; after every call the full get-vector "
         "(+ stage, dictionary kind) of the object is compared with the extracted model and the property statement is evaluated on the "
-        "real outputs. A case is non-trivial when its probe was executed on the real library; distinct = distinct (object, stage, "
-        "parameter-or-call, value class) / distinct call-kind sets of a history.")
+        "real outputs. Round 2 adds: composite setters (every cParam field at lo-1 / lo / hi / hi+1 / 0 / extremes x stage), "
+        "ZSTD_CCtx_setPledgedSrcSize x stage x pledged value x following calls, ZSTD_CCtxParams_init_advanced, dictionary calls of both "
+        "sides x what was attached before x stage x following frames (the frame header and the decodability with each candidate "
+        "dictionary / prefix show what was used), mid-frame updates of the seven authorised parameters in single-thread and "
+        "multithreaded frames, ZSTD_d_refMultipleDDicts orders, the scenarios of the repaired findings F27 / F29-F33, and 40-call "
+        "histories over all of these; after every call cctx->pledgedSrcSizePlusOne, cParamsChanged, the attached dictionary, "
+        "cctx->appliedParams and mtctx->params (resp. dictUses / ddict / ddictSet) are compared with the model. "
+        "A case is non-trivial when its probe was executed on the real library (round 2: >= 80% of its calls); distinct = distinct "
+        "(object, stage, parameter-or-call, value class) / distinct call-kind sets of a history.")
 
-    # ---- shrink + report
+    # ---- shrink + report (scenarios of repaired findings first: they carry their key)
+    found.sort(key=lambda p: 0 if isinstance(p.get("sig"), tuple) and p["sig"][0] == "SC" else 1)
+    ties.sort(key=lambda p: 0 if isinstance(p.get("sig"), tuple) and p["sig"][0] == "SC" else 1)
     lim = set()
     for p in found[:4]:
         report(ctx, shrink(env, oracle, p), lim)
